@@ -187,6 +187,38 @@ class C07(Prop):
             c = _outcome(markers.Marker(s), None if env is None else dict(env))
             if not (a == b == c):
                 return False, f"Marker({s!r}).evaluate({env!r}) is not a function of marker and environment: {a}, then {b}, fresh object {c}"
+            if env is not None:
+                # "every environment mapping": the same entries offered through other Mapping types (read-only view, chained
+                # maps, a minimal user-defined Mapping that refuses any mutation, a dict subclass) give the same answer
+                import collections
+                import types
+
+                class RO(collections.abc.Mapping):
+                    def __init__(self, d):
+                        self._d = d
+
+                    def __getitem__(self, k):
+                        return self._d[k]
+
+                    def __iter__(self):
+                        return iter(self._d)
+
+                    def __len__(self):
+                        return len(self._d)
+
+                class D(dict):
+                    pass
+                keys = list(env)
+                half = {k: env[k] for k in keys[: len(keys) // 2]}
+                rest = {k: env[k] for k in keys[len(keys) // 2:]}
+                for name, alt in (("MappingProxyType", types.MappingProxyType(dict(env))), ("ChainMap", collections.ChainMap(half, rest)),
+                                  ("user Mapping", RO(dict(env))), ("dict subclass", D(env)),
+                                  ("OrderedDict reversed", collections.OrderedDict(reversed(list(env.items()))))):
+                    d = _outcome(m, alt)
+                    if d != a:
+                        return False, f"Marker({s!r}).evaluate: {name} with the entries {env!r} gives {d}, a dict gives {a}"
+                    if dict(alt) != snap:
+                        return False, f"evaluate() modified the {name} it was given"
             return True, ""
         raise KeyError(law)
 
